@@ -448,3 +448,123 @@ def mc_plain(ctx, module, cfg, overrides, timeout=600, spec_dir="tmpl"):
         sig = {"kind": "spec", "module": module, "name": r.violation["name"], "what": r.violation["kind"]}
         ctx.violation(sig, {"tlc_trace": framework.canon([[a, s] for a, s in states]) or r.violation["text"][:6000]})
     return r
+
+
+# ---------------------------------------------------------------------------------------
+# Generation + replay in one pass.  ctx.gen_states / ctx.replay parse every dumped state with the
+# generic TLA value parser in the parent and ship (state, path) pairs around; for ~10^5 states
+# carrying three file texts and an output each that dominated the run.  Here each forked worker
+# converts its slice of the dump to JSON text (the states only contain records, sequences, sets,
+# strings, ints and booleans), replays it and returns only counters and divergences.
+
+import json as _json
+import re as _re
+
+_DUMP = None
+_FIELD = _re.compile(r'([A-Za-z_]\w*) \|->')
+_VAR = _re.compile(r'^/\\ (\w+) = ', _re.M)
+_HDR = _re.compile(r'^State \d+:.*$', _re.M)
+
+
+def tla_to_json(text):
+    """TLC's printed value -> JSON text (records -> objects; sequences and sets -> arrays)."""
+    t = text.replace("{", "\x01").replace("}", "\x02").replace("[", "{").replace("]", "}")
+    t = t.replace("<<", "[").replace(">>", "]").replace("\x01", "[").replace("\x02", "]")
+    t = _FIELD.sub(r'"\1":', t)
+    return t.replace("TRUE", "true").replace("FALSE", "false")
+
+
+def parse_state_fast(body, wanted):
+    ms = list(_VAR.finditer(body))
+    out = {}
+    for i, m in enumerate(ms):
+        if m.group(1) not in wanted:
+            continue
+        end = ms[i + 1].start() if i + 1 < len(ms) else len(body)
+        out[m.group(1)] = _json.loads(tla_to_json(body[m.end():end]))
+    return out
+
+
+def _replay_slice(rng):
+    lo, hi = rng
+    text = _DUMP[lo:hi]
+    hs = list(_HDR.finditer(text))
+    n = nt = 0
+    kinds = {}
+    div = []
+    samples = []
+    for i, m in enumerate(hs):
+        end = hs[i + 1].start() if i + 1 < len(hs) else len(text)
+        st = parse_state_fast(text[m.end():end], ("cfg", "src", "res"))
+        cfg, src, res = st["cfg"], st["src"], st["res"]
+        n += 1
+        k = cfg["fam"] + ":" + res["kind"]
+        kinds[k] = kinds.get(k, 0) + 1
+        if len(src["main"]) >= 2 and res["kind"] != "unspec":
+            nt += 1
+        r = check_case(cfg, src, res)
+        if r is not None:
+            div.append({"extra": {"cfg": cfg, "src": src}, "path": [{"act": "render", "args": [], "exp": slim(res)}], "divergence": r})
+        elif len(samples) < 1 and res["kind"] == "ok" and len(src["main"]) > 20:
+            samples.append({"kind": "s2c", "extra": {"cfg": cfg, "main": text_of(src["main"])},
+                            "exp": {"kind": "ok", "out": bytes(res["out"]).decode("utf-8", "replace")}})
+    return {"n": n, "nt": nt, "kinds": kinds, "div": div[:40], "ndiv": len(div), "samples": samples}
+
+
+def gen_and_replay(ctx, module, cfg, overrides, timeout=600, spec_dir="tmpl", label="s2c"):
+    """TLC enumerates the templates (checking the INVARIANT lines of the cfg on each) and dumps the
+    states; every state is replayed into the real code.  Returns the number of states."""
+    global _DUMP
+    import os
+    from . import VERIF, tlc, framework
+    sd = os.path.join(VERIF, "specs", spec_dir)
+    cfgp = framework.make_cfg(os.path.join(sd, cfg), overrides, ctx.scratch, "%s_%d_%s" % (module, len(os.listdir(ctx.scratch)), cfg))
+    dump = os.path.join(ctx.scratch, "%s_%d" % (module, len(os.listdir(ctx.scratch))))
+    r = tlc.run(sd, module, cfgp, timeout=timeout, dump=dump, deadlock=False)
+    ctx.cov["checker_cmd"].append("tlc -dump -config %s %s" % (cfg, module))
+    if not r.ok:
+        states = tlc.parse_error_trace(r.violation["text"])
+        ctx.violation({"kind": "spec", "module": module, "name": r.violation["name"], "what": r.violation["kind"]},
+                      {"tlc_trace": framework.canon([[a, s] for a, s in states]) or r.violation["text"][:6000]})
+        return 0
+    ctx.cov["states"] += r.distinct
+    ctx.cov["transitions"] += r.generated
+    fn = dump + ".dump"
+    _DUMP = open(fn).read()
+    os.remove(fn)
+    idx = [m.start() for m in _re.finditer(r"^State \d+:", _DUMP, _re.M)]
+    if len(idx) != r.distinct:
+        raise framework.Machinery("dump holds %d states, TLC reported %d" % (len(idx), r.distinct))
+    nproc = int(os.environ.get("VERIF_WORKERS", "16"))
+    per = max(1, len(idx) // (nproc * 8))
+    cuts = idx[::per] + [len(_DUMP)]
+    ranges = [(cuts[i], cuts[i + 1]) for i in range(len(cuts) - 1)]
+    if len(ranges) < 256 and len(idx) > 4000:        # pool_map runs < 256 items inline: split finer to get the pool
+        per = max(1, len(idx) // 300)
+        cuts = idx[::per] + [len(_DUMP)]
+        ranges = [(cuts[i], cuts[i + 1]) for i in range(len(cuts) - 1)]
+    try:
+        parts = framework.pool_map(_replay_slice, ranges)
+    finally:
+        _DUMP = None
+    n = sum(p["n"] for p in parts)
+    if n != r.distinct:
+        raise framework.Machinery("replayed %d of %d dumped states" % (n, r.distinct))
+    kinds = {}
+    for p in parts:
+        for k, v in p["kinds"].items():
+            kinds[k] = kinds.get(k, 0) + v
+        for d in p["div"]:
+            sig = {"kind": label}
+            sig.update(d["divergence"]["sig"])
+            ctx.violation(sig, d)
+        for s in p["samples"]:
+            if len(ctx.cov["samples"]) < 6:
+                ctx.cov["samples"].append(s)
+    ctx.cov["traces_validated_against_impl"] += n
+    ctx.cov["evaluations"] += n
+    ctx.cov["distinct_nontrivial"] += sum(p["nt"] for p in parts)
+    ctx.cov.setdefault("templates_by_family_and_result", {}).update(kinds)
+    ctx.cov["gen_runs"] = ctx.cov.get("gen_runs", []) + [
+        {"module": module, "cfg": cfg, "overrides": framework.canon(overrides), "states": r.distinct, "wall_s": round(r.wall_s, 2)}]
+    return n
